@@ -306,7 +306,7 @@ def run(ctx, driver):
     quads = _quads(rng, 2000 if ctx.tier == "quick" else 50000)
     ctx.rule = ("(a) step-size septuples (mi, me, ai, ae, dist_ratio, avg_ratio): all 27 below/at/above patterns x 6 ratio settings, "
                 "then random incl. exact ties and 1-ulp neighbours; distinct = distinct (pattern, ratio setting) classes hit; "
-                "(b) analysis() runs with Poisson stimuli through the PyGSL stand-in; distinct = distinct (system, stimulus, seed)")
+                "(b) analysis() runs with Poisson stimuli through the PyGSL stand-in; distinct = distinct (system, stimulus, seed); stimuli also regular and list entries on a variable another entry drives (every specified spike must be delivered to both candidates); the stand-in's implicit stepper asks for the Jacobian at the start of every raw step and every 5th is audited against central differences of the derivative function at the same (t, y)")
     # --- (a) decision function: real vs documented (oracle) and real vs Lean at Float (correspondence)
     real = []
     for q in quads:
